@@ -29,19 +29,23 @@ PROP = dict(
     theorems=['Fit.C11.C11_write_error_surfaces', 'Fit.C11.C11_error_surfaces_batch', 'Fit.C11.C11_success_means_no_fault',
               'Fit.C11.C11_error_surfaces_stream', 'Fit.C11.C11_call_error_surfaces', 'Fit.C11.C11_consts',
               'Fit.C11.C11_prefix_never_valid', 'Fit.C11.C11_crash_never_valid', 'Fit.C11.C11_prefix_never_valid_stream',
-              'Fit.C11.C11_stale_header_witness'],
+              'Fit.C11.C11_stale_header_witness',
+              'Fit.C11.C11_fault_is_crash_prefix', 'Fit.C11.C11_fault_is_crash_prefix_stream',
+              'Fit.C11.C11_call_fault_is_crash_prefix', 'Fit.C11.C11_validated_call_fault_is_crash_prefix',
+              'Fit.C11.C11_crash_prefix_never_valid',
+              'Fit.C11.C11_short_write_model_refines', 'Fit.C11.C11_short_write_buffered_safe', 'Fit.C11.C11_short_write_witness'],
     families=[dict(name='enc-faults', prop=True)],
     extra=_extra,
     trusted_base=STD_TRUST + [
         "fault model FitModel/Writer.lean `Faults`: any set of destination operations fails, each after taking at most j bytes; tied by family enc-faults: every fault point (operation x j in {0,1,len-1,len}) of real encodes, for all writer kinds, buffer sizes, batch and stream: result per API call, call in which the fault fired, operation log, destination content and the real CheckIntegrity verdict on it compared with the model",
         "the property predicate is evaluated on the implementation's answers: a fired fault makes the call in progress fail, no panic, and a destination content accepted by the real CheckIntegrity equals pre ++ completed sequences",
     ],
-    assumptions=["a destination honours io.Writer's contract (n < len(p) comes with an error); after a failure it may or may not keep failing (any fault set)",
+    assumptions=["a destination honours io.Writer's contract (n < len(p) comes with an error); after a failure it may or may not keep failing (any fault set). What the code does with a destination that breaks the contract (short count, nil error) is modelled in FitModel/WriterShort.lean (bufio.Writer.Write as the loop it is), tied by the k<s>j entries of family enc-faults and stated by C11_short_write_*: harmless behind any write buffer (retried or io.ErrShortWrite), unnoticed by an unbuffered encoder (witness) - so the assumption is necessary only for WithWriteBufferSize(0) and for the count of WriteAt",
                  "default (zero) file headers for the never-valid clause, as the property states"],
 )
 
 TEXT = dict(
     technique='Lean 4 proof over a model of destination + bufio + the encoder output paths + stream encoder under ARBITRARY fault schedules (any set of destination operations fails, each after taking at most j bytes): contracts Appended/Wrote/Rewrote/Outcome proved for every fault schedule, chains by induction, stream = batch call by call; the never-valid clause on top of the CheckIntegrity model of C04 (header step evaluation, C04_append, 16-bit burst lemma for partially rewritten data sizes); differential tie by exhaustive fault-point enumeration on the real encoder',
-    text='C11_error_surfaces_batch / _stream: if any destination operation failed, the run of Encode calls (resp. WriteMessage…SequenceCompleted) does not report success; C11_call_error_surfaces: from ANY encoder state and for any validator, an Encode / WriteMessage / SequenceCompleted that reports success has seen no failed operation (the failing call is the one in progress); C11_success_means_no_fault (converse, non-vacuity). C11_prefix_never_valid / _stream: for default (zero) headers, any writer kind, buffer size, chain, pre-filled accepted destination and ANY fault schedule — in particular "operation k takes j bytes and fails", whose final content is the crash state — a destination content accepted by the CheckIntegrity model is d0 followed by the first m COMPLETE sequences. Hypotheses: records < 16 MiB per sequence, high byte of the placeholder CRC non-zero (C11_consts: proved for the regenerated profile.Version with protocol 1.0/2.0). Finding F13 (stream encoder kept the previous data size in its header) was reported by this check, repaired in /repo (f65e050) and is kept as C11_stale_header_witness + corpus witness. Tie: family enc-faults (sweeps: every operation x {0,1,len-1,len} bytes; random multi-fault runs, continuing after errors).',
-    note='Proved about the model; the model is tied to encoder.go/stream.go/writebuffer.go and bufio by differential testing (operation logs, results, contents, CheckIntegrity verdicts). That the single-fault schedule "operation k takes j bytes and fails" leaves exactly the crash state "the first k operations of the healthy run in full + j bytes of the next, and no operation afterwards" is not a separate theorem: it is CHECKED on every fault point of every sweep, for the real encoder (harness replays the recorded operations of the healthy run) and for the model (driver replays the log of the model) — a deviation prints `not-a-crash-prefix` and fails the property predicate. A (n<len, nil) short write that breaks io.Writer\'s contract is out of scope.',
+    text='C11_error_surfaces_batch / _stream: if any destination operation failed, the run of Encode calls (resp. WriteMessage…SequenceCompleted) does not report success; C11_call_error_surfaces: from ANY encoder state and for any validator, an Encode / WriteMessage / SequenceCompleted that reports success has seen no failed operation (the failing call is the one in progress); C11_success_means_no_fault (converse, non-vacuity). C11_prefix_never_valid / _stream: for default (zero) headers, any writer kind, buffer size, chain, pre-filled accepted destination and ANY fault schedule — in particular "operation k takes j bytes and fails", whose final content is the crash state — a destination content accepted by the CheckIntegrity model is d0 followed by the first m COMPLETE sequences. Hypotheses: records < 16 MiB per sequence, high byte of the placeholder CRC non-zero (C11_consts: proved for the regenerated profile.Version with protocol 1.0/2.0). C11_fault_is_crash_prefix / _stream / C11_call_fault_is_crash_prefix: from ANY encoder (stream encoder) state — every destination kind, with and without the bufio layer, every buffer size, any destination content/position, every chain, batch and stream, and each single Encode / WriteMessage / SequenceCompleted (C11_validated_call_fault_is_crash_prefix: also with the two validators in front, for any message validator: the functions the driver runs) — the destination under the schedule "operation k takes j bytes and fails" (write, write-at or seek) is exactly the replay (content, position, log) of the first k operations of the healthy run in full followed by operation k cut to j bytes and marked failed, nothing after it, and the entry point returns an error; identical runs when the healthy run has no operation k. C11_crash_prefix_never_valid combines it with the never-valid clause: every such crash state of the healthy operation sequence that the integrity check accepts is d0 + completed sequences. Finding F13 (stream encoder kept the previous data size in its header) was reported by this check, repaired in /repo (f65e050) and is kept as C11_stale_header_witness + corpus witness. Tie: family enc-faults (sweeps: every operation x {0,1,len-1,len} bytes; random multi-fault runs, continuing after errors).',
+    note='Proved about the model; the model is tied to encoder.go/stream.go/writebuffer.go and bufio by differential testing (operation logs, results, contents, CheckIntegrity verdicts). That the single-fault schedule "operation k takes j bytes and fails" leaves exactly the crash state "the first k operations of the healthy run in full + j bytes of the next, and no operation afterwards" is a THEOREM about the model (C11_fault_is_crash_prefix, _stream, C11_call_fault_is_crash_prefix; no assumption on the destination or the encoder state) and is still CHECKED on every fault point of every sweep, for the real encoder (harness replays the recorded operations of the healthy run) and for the model (driver: `Dest.run (crashOps k j ops)`, the definitions the theorem is stated with) — a deviation prints `not-a-crash-prefix` and fails the property predicate. A (n<len, nil) short write breaks io.Writer\'s contract and is outside the property; what the code does then is modelled (FitModel/WriterShort.lean), tied (enc-faults entries k<s>j) and stated: C11_short_write_model_refines (the extended model equals the model on contract-abiding schedules; the unrolled bufio.Write is the loop), C11_short_write_buffered_safe (behind a write buffer of any size > 0 every successful Write…Flush series has delivered every byte in order, for EVERY schedule of errors and short counts), C11_short_write_witness (unbuffered: success reported with bytes missing; buffered: retried / io.ErrShortWrite; WriteAt count ignored).',
 )
